@@ -15,6 +15,11 @@ def bounds_in_default_unit(ast, node):
     return begin, end
 
 
+def period_in_default_unit(ast):
+    # one sample, as a duration in the default unit of the specification
+    return Fraction(ast.sampling_period) * Fraction(ast.U[ast.sampling_period_unit], ast.U[ast.unit])
+
+
 class StlHorizon(LtlHorizon, StlAstVisitor):
 
     def __init__(self, ast=None):
@@ -23,6 +28,17 @@ class StlHorizon(LtlHorizon, StlAstVisitor):
 
     def visit(self, node, *args, **kwargs):
         return StlAstVisitor.visit(self, node, *args, **kwargs)
+
+    def visitNext(self, node, *args, **kwargs):
+        # bounds are accumulated as durations: next looks one sampling period ahead
+        op_horizon = self.visit(node.children[0], *args, **kwargs)
+        self.horizons[node] = op_horizon + period_in_default_unit(self.ast)
+        return op_horizon + period_in_default_unit(self.ast)
+
+    def visitStrongNext(self, node, *args, **kwargs):
+        op_horizon = self.visit(node.children[0], *args, **kwargs)
+        self.horizons[node] = op_horizon + period_in_default_unit(self.ast)
+        return op_horizon + period_in_default_unit(self.ast)
 
     def visitTimedEventually(self, node, *args, **kwargs):
         op_horizon = self.visit(node.children[0], *args, **kwargs)
